@@ -241,6 +241,10 @@ func c08Large(w *core.W, j int) {
 	g := model.NewGen(w.Rng(j))
 	g.NoHuge = true
 	g.MaxOpaque = 40
+	if j%8 == 7 {
+		c08Beyond64K(w, g, j)
+		return
+	}
 	var m *model.Msg
 	exact := j%2 == 0
 	if exact {
@@ -261,6 +265,59 @@ func c08Large(w *core.W, j int) {
 // 16384-delta for every delta in 0..79); the names inside its RDATA are new to the message and
 // are re-used by the owners of the following records. Pack may only point at offsets < 16384,
 // and Len's simulation has to agree.
+// c08Beyond64K: nothing in the packer stops at 65535 octets (zone transfers and tests build such
+// messages); for one that packs, PackBuffer must not fail for lack of room either, whatever the
+// size of the caller's buffer - in particular a "maximum size" buffer of 65535 or 65536 octets.
+func c08Beyond64K(w *core.W, g *model.Gen, j int) {
+	m := new(dns.Msg)
+	m.SetQuestion("big.example.", dns.TypeA)
+	m.Response = true
+	n := 2300 + g.R.IntN(2200)
+	for i := 0; i < n; i++ {
+		m.Answer = append(m.Answer, &dns.A{Hdr: dns.RR_Header{Name: fmt.Sprintf("host-%d-%d.big.example.", i, j), Rrtype: dns.TypeA, Class: 1, Ttl: 60}, A: []byte{10, byte(j), byte(i >> 8), byte(i)}})
+	}
+	for _, compress := range []bool{false, true} {
+		m.Compress = compress
+		wit := map[string]any{"records": n, "compress": compress}
+		var packed []byte
+		var err error
+		if w.Guard("Msg.Pack", wit, func() { packed, err = m.Pack() }) {
+			return
+		}
+		w.Eval(1)
+		w.Count("messages_beyond_64k", 1)
+		if err != nil {
+			if isBufErr(err) {
+				w.Violation(fmt.Sprintf("C08/pack-no-room/beyond-64k/compress=%v", compress), fmt.Sprintf("Pack of %d records: %v", n, err), wit)
+			}
+			continue
+		}
+		if l := m.Len(); l < len(packed) {
+			w.Violation(fmt.Sprintf("C08/len-underestimates/beyond-64k/compress=%v", compress), fmt.Sprintf("Len()=%d < packed %d", l, len(packed)), wit)
+		}
+		ul := func() int { c := m.Copy(); c.Compress = false; return c.Len() }()
+		for _, bl := range []int{65535, 65536, 65537, len(packed) - 1, ul, ul + 1} {
+			buf := make([]byte, bl)
+			var out []byte
+			if w.Guard("Msg.PackBuffer", wit, func() { out, err = m.PackBuffer(buf) }) {
+				return
+			}
+			w.Count("packbuffer_calls", 1)
+			if err != nil {
+				w.Violation(fmt.Sprintf("C08/packbuffer-no-room/beyond-64k/compress=%v", compress), fmt.Sprintf("PackBuffer with a %d-octet buffer for a message of %d packed / %d uncompressed octets: %v", bl, len(packed), ul, err), wit)
+				continue
+			}
+			if string(out) != string(packed) {
+				w.Violation(fmt.Sprintf("C08/packbuffer-differs/beyond-64k/compress=%v", compress), fmt.Sprintf("PackBuffer(%d) output differs from Pack output", bl), wit)
+			}
+			if bl > ul && (len(out) == 0 || &out[0] != &buf[0]) {
+				w.Violation(fmt.Sprintf("C08/packbuffer-not-in-place/beyond-64k/compress=%v", compress), fmt.Sprintf("buffer of %d > uncompressed %d not used", bl, ul), wit)
+			}
+		}
+	}
+	w.NontrivialStr("beyond-64k", fmt.Sprint(n))
+}
+
 func c08Boundary(w *core.W, j int) {
 	nb := nameBearing()
 	l := nb[j%len(nb)]
@@ -323,7 +380,7 @@ func init() {
 	core.Register(&core.Monitor{
 		ID: "C08", Level: "exploration", Plan: plan, Run: run,
 		Rule: "messages (pool names with shared suffixes/escapes; every name-bearing type straddling offset 16384 at each of 80 alignments; all registry types incl. bitmaps, OPT options, SVCB, APL; 300..1100-record messages beyond 16384 octets) x Compress in {false,true}; " +
-			"checks Len()>=len(Pack()), Len(rr)>=len(PackRR), equality for escape-free messages of the 16 common types, no ErrBuf/overflow from Pack/PackBuffer, PackBuffer with buffers of 0, Len-1, Len, Len+1, Len+2, Len+700 octets never refused and in place when buffer > uncompressed Len; messages ending in a zero-octet field (CAA value, URI target, TXT/SPF without strings, NULL); " +
+			"checks Len()>=len(Pack()), Len(rr)>=len(PackRR), equality for escape-free messages of the 16 common types, no ErrBuf/overflow from Pack/PackBuffer, PackBuffer with buffers of 0, Len-1, Len, Len+1, Len+2, Len+700 octets never refused and in place when buffer > uncompressed Len; messages ending in a zero-octet field (CAA value, URI target, TXT/SPF without strings, NULL); messages beyond 65535 octets with buffers of 65535/65536 octets; " +
 			"non-trivial = distinct packed message",
 		MinObserved: []string{"messages", "exactness_checked", "records", "packbuffer_calls", "messages_over_16384", "boundary_alignments"},
 	})
